@@ -12,5 +12,6 @@ CONSTANTS
   SOLVER = {1, 2}
   SCALES = {"unit", "small"}
   SYSCLS = {"spd", "diagdom", "laplace", "diagvar"}
+  OPTS = {"verbose", "nswp40", "kick1", "kick22", "iters", "rmax64", "band1", "band2"}
 INVARIANT WellTyped
 CHECK_DEADLOCK FALSE
